@@ -581,6 +581,31 @@ func reachCtx(c *Ctx, roots []*ssa.Function) map[*ssa.Function]bool {
 		}
 		regsIn[g.in][g.kind] = g.fn
 	}
+	// registrations made by a helper method on behalf of its caller (registerRaftCallbacks() called by loadRaft) belong to
+	// the caller's context as well
+	for _, f := range c.ModFuncs {
+		if !c.isProd(f) || recvTypeName(f) == "" {
+			continue
+		}
+		eachInstr(f, func(i ssa.Instruction) {
+			cc := asCall(i)
+			if cc == nil || cc.StaticCallee() == nil || cc.StaticCallee() == f {
+				return
+			}
+			h := cc.StaticCallee()
+			if regsIn[h] == nil || recvTypeName(h) != recvTypeName(f) {
+				return
+			}
+			if regsIn[f] == nil {
+				regsIn[f] = map[string]*ssa.Function{}
+			}
+			for k, v := range regsIn[h] {
+				if regsIn[f][k] == nil {
+					regsIn[f][k] = v
+				}
+			}
+		})
+	}
 	type key struct {
 		f   *ssa.Function
 		ctx *ssa.Function
